@@ -523,4 +523,4 @@ def run(prog, rep, tier):
     rep.floor("R5-usefulness", 8)
     rep.floor("R8-epgc", 9)
     check_epgc(prog, rep)
-    wire(prog, rep, "C12", 8, 320)
+    wire(prog, rep, "C12", 8, 320, 8)
